@@ -136,9 +136,14 @@ def distribution_cost(
 
     comm = 0
     agt_names = [a.name for a in agentsdef]
+    counted = set()
     for l in computation_graph.links:
         # As we support hypergraph, we may have more than 2 ends to a link
         for c1, c2 in combinations(l.nodes, 2):
+            if (c1, c2) in counted:
+                # msg_load already sums the load of all the links between c1 and c2
+                continue
+            counted.add((c1, c2))
             a1 = distribution.agent_for(c1)
             a2 = distribution.agent_for(c2)
             comm += route(a1, a2) * msg_load(c1, c2)
